@@ -75,7 +75,7 @@ def projects(tier):
     # compared (byte-wise on the string vs component-wise) differs exactly there; the file's content is d.mamba's
     clash = []
     for label, files, ok, faulty in out:
-        if "d.mamba" in files and any(p.startswith("sub/") for p in files) and (not quick or not faulty):
+        if "d.mamba" in files and any(p.startswith("sub/") for p in files) and not faulty and ":d2" not in label:
             f2 = {("sub.mamba" if p == "d.mamba" else p): t for p, t in files.items()}
             clash.append((label + ":clash", f2, ok, ["sub.mamba" if p == "d.mamba" else p for p in faulty]))
     return out + clash
